@@ -32,6 +32,9 @@ def classify(req, oroot, newv):
     if kind == "DELETE" and rel.startswith("0=ocfl_object_"):
         return "DELETE-old-declaration", rel
     if kind == "LIST":
+        m = re.match(r"prefix=(.*) delim=(.*)$", what)
+        if m and oroot and m.group(1) == oroot + "/":
+            return "LIST-root", ""
         return "LIST", rel
     return kind, rel
 
@@ -110,7 +113,8 @@ def model_check(rep, kind, obs_list, oroot, newv, partial=False):
     reqs = sorted({ob["k"]: ob["request"] for ob in obs_list}.items())
     labelled = [(k, classify(r, oroot, newv)) for k, r in reqs]
     # the model's script starts at the first upload of the new version; files are the unit (multipart requests collapse)
-    mut = [(k, c, rel) for k, (c, rel) in labelled if c.startswith(("PUT-", "DELETE-")) or (c == "LIST" and rel == "" )]
+    side = max([k for k, (c, _) in labelled if c == "PUT-root-sidecar"] or [10 ** 9])
+    mut = [(k, c, rel) for k, (c, rel) in labelled if c.startswith(("PUT-", "DELETE-")) or (c == "LIST-root" and k > side)]
     files = []
     for k, c, rel in mut:
         if c == "PUT-version-file" and rel not in files:
@@ -132,8 +136,6 @@ def model_check(rep, kind, obs_list, oroot, newv, partial=False):
                     continue
                 fseen.append(rel)
                 order.append(c)
-            elif c == "LIST":
-                order.append("LIST-root")
             else:
                 order.append(c)
         rep.count("script-compared")
@@ -145,9 +147,9 @@ def model_check(rep, kind, obs_list, oroot, newv, partial=False):
         c, rel = classify(ob["request"], oroot, newv)
         if c == "PUT-version-file":
             idx = files.index(rel)
-        elif c in want_script and c != "PUT-version-file":
+        elif c in want_script and c not in ("PUT-version-file", "LIST-root"):
             idx = want_script.index(c)
-        elif c == "LIST" and rel == "" and "LIST-root" in want_script and ob["k"] > max([k for k, cc, _ in mut if cc == "PUT-root-sidecar"] or [10 ** 9]):
+        elif c == "LIST-root" and "LIST-root" in want_script and ob["k"] > side:
             idx = want_script.index("LIST-root")
         else:
             rep.count("unmodelled-request:" + c)
